@@ -250,14 +250,15 @@ package intermediate
 //@   ensures  nocfg: cfg(a) == nil ==> err == nil && len(recList(record)) == n0
 //@   ensures  assumed_in:  old(inFields(a, record)) ==> inFields(a, record)
 //@   ensures  assumed_exs: err == nil && cfg(a) != nil && old(inFields(a, record)) ==> exStats(a, record)
-//@   ensures  assumed_rec: recNN(record) && (old(flowKinds(record)) ==> flowKinds(record)) && (old(kind64(record, "octetTotalCount") && kind64(record, "reverseOctetTotalCount")) ==> kind64(record, "octetTotalCount") && kind64(record, "reverseOctetTotalCount"))
+//@   ensures  rec: recNN(record)
+//@   ensures  assumed_kinds: (old(flowKinds(record)) ==> flowKinds(record)) && (old(kind64(record, "octetTotalCount") && kind64(record, "reverseOctetTotalCount")) ==> kind64(record, "octetTotalCount") && kind64(record, "reverseOctetTotalCount"))
 //@   ensures  same: record.(*dataRecord) == old(record.(*dataRecord)) && dense(record)
 //@   ensures  bound: cfg(a) != nil ==> len(recList(record)) <= n0 + 2 * len(cfg(a).StatsElements)
 //@   ensures  arr: arr(recList(record)) == old(arr(recList(record))) || fresh(recList(record))
 //@   // fields are only appended: the record's elements so far stay in place
 //@   ensures  grow: len(recList(record)) >= old(len(recList(record))) && (forall j in [0, old(len(recList(record)))): recList(record)[j] == old(recList(record)[j]))
-//@   ensures  assumed_new: forall j in [old(len(recList(record))), len(recList(record))): fresh(recList(record)[j].(*baseInfoElement))
-//@   ensures  assumed_keepdistinct: old(distinctElems(record)) ==> distinctElems(record)
+//@   ensures  new: forall j in [old(len(recList(record))), len(recList(record))): fresh(recList(record)[j].(*baseInfoElement))
+//@   ensures  keepdistinct: old(distinctElems(record)) ==> distinctElems(record)
 //@   // two fields per configured counter the record carries, in configuration order: the source-node field, then the destination-node field,
 //@   // each holding the record's counter if the record comes from that node and 0 otherwise
 //@   ensures  count: err == nil && cfg(a) != nil && old(allStats(a, record)) ==> len(recList(record)) == n0 + 2 * len(cfg(a).StatsElements)
@@ -270,6 +271,8 @@ package intermediate
 //@   loop 1 invariant nn:   forall j in [0, len(recList(record))): wfElemA(recList(record)[j])
 //@   loop 1 invariant k64:  forall j in [0, len(recList(record))): forall i in [0, len(cfg(a).StatsElements)): ie(recList(record)[j]).Name == cfg(a).StatsElements[i] ==> dt(recList(record)[j]) == Unsigned64
 //@   loop 1 invariant arr:  arr(recList(record)) == old(arr(recList(record))) || fresh(recList(record))
+//@   loop 1 invariant new:  forall j in [n0, len(recList(record))): fresh(recList(record)[j].(*baseInfoElement))
+//@   loop 1 invariant dist: old(distinctElems(record)) ==> distinctElems(record)
 //@   loop 1 invariant keep: forall j in [0, n0): recList(record)[j] == old(recList(record)[j])
 //@   loop 1 invariant seed: old(allStats(a, record)) && 0 <= i0 && i0 < $i && 0 <= j0 && j0 < n0 && old(isFirst(record, cfg(a).StatsElements[i0], j0)) ==>
 //@                  ie(recList(record)[n0 + 2 * i0]).Name == cfg(a).AggregatedSourceStatsElements[i0] && u64v(recList(record)[n0 + 2 * i0]) == (fillSrcStats ? old(u64v(recList(record)[j0])) : 0)
@@ -277,6 +280,8 @@ package intermediate
 //@   callpost AddInfoElement nn:   forall j in [0, len(recList(record))): wfElemA(recList(record)[j])
 //@   callpost AddInfoElement k64:  forall j in [0, len(recList(record))): forall i in [0, len(cfg(a).StatsElements)): ie(recList(record)[j]).Name == cfg(a).StatsElements[i] ==> dt(recList(record)[j]) == Unsigned64
 //@   callpost AddInfoElement arr:  arr(recList(record)) == old(arr(recList(record))) || fresh(recList(record))
+//@   callpost AddInfoElement new:  forall j in [n0, len(recList(record))): fresh(recList(record)[j].(*baseInfoElement))
+//@   callpost AddInfoElement dist: old(distinctElems(record)) ==> distinctElems(record)
 //@   callpost AddInfoElement keep: forall j in [0, n0): recList(record)[j] == old(recList(record)[j])
 //@   callpost AddInfoElement shape: dense(record) && record.(*dataRecord) == old(record.(*dataRecord)) && len(recList(record)) >= n0
 
@@ -335,13 +340,13 @@ package intermediate
 //@   // seeded name with another type, and that a seeded name is not one of the fixed names with another type) is ASSUMED, as before
 //@   ensures  assumed_ex:  err == nil && cfg(a) != nil && old(inFields(a, record)) ==> exThr(a, record) && inFields(a, record) && (old(exStats(a, record)) ==> exStats(a, record))
 //@   ensures  assumed_kinds: old(flowKinds(record)) ==> flowKinds(record)
-//@   ensures  assumed_rec: recNN(record)
+//@   ensures  rec: recNN(record)
 //@   ensures  same: record.(*dataRecord) == old(record.(*dataRecord))
 //@   ensures  arr: arr(recList(record)) == old(arr(recList(record))) || fresh(recList(record))
 //@   // fields are only appended: the record's elements so far stay in place, the new ones are freshly allocated objects
 //@   ensures  grow: len(recList(record)) >= old(len(recList(record))) && (forall j in [0, old(len(recList(record)))): recList(record)[j] == old(recList(record)[j]))
-//@   ensures  assumed_new: forall j in [old(len(recList(record))), len(recList(record))): fresh(recList(record)[j].(*baseInfoElement))
-//@   ensures  assumed_keepdistinct: old(distinctElems(record)) ==> distinctElems(record)
+//@   ensures  new: forall j in [old(len(recList(record))), len(recList(record))): fresh(recList(record)[j].(*baseInfoElement))
+//@   ensures  keepdistinct: old(distinctElems(record)) ==> distinctElems(record)
 //@   // which fields are seeded, where, and with what: the node end times, then per throughput element the common, source-node and destination-node field
 //@   ensures  count: err == nil && cfg(a) != nil ==> len(recList(record)) == n0 + nE + 3 * len(cfg(a).ThroughputElements)
 //@   ensures  endseed: err == nil && cfg(a) != nil && old(seedIdx(record, js, je, jb, jr)) ==> (forall k in [0, nE): ie(recList(record)[n0 + k]).Name == cfg(a).AntreaFlowEndSecondsElements[k]
@@ -352,12 +357,18 @@ package intermediate
 //@   modifies record.(*dataRecord).len, record.(*dataRecord).fieldCount, record.(*dataRecord).orderedElementList, recList(record)[*]
 //@   loop 1 invariant cnt:  0 <= $i && $i <= nE && len(recList(record)) == n0 + $i && dense(record) && record.(*dataRecord) == old(record.(*dataRecord))
 //@   loop 1 invariant arr:  arr(recList(record)) == old(arr(recList(record))) || fresh(recList(record))
+//@   loop 1 invariant nn:   forall j in [0, len(recList(record))): wfElemA(recList(record)[j])
+//@   loop 1 invariant new:  forall j in [n0, len(recList(record))): fresh(recList(record)[j].(*baseInfoElement))
+//@   loop 1 invariant dist: old(distinctElems(record)) ==> distinctElems(record)
 //@   loop 1 invariant keep: forall j in [0, n0): recList(record)[j] == old(recList(record)[j])
 //@   loop 1 invariant endseed: old(seedIdx(record, js, je, jb, jr)) ==> (forall k in [0, $i): ie(recList(record)[n0 + k]).Name == cfg(a).AntreaFlowEndSecondsElements[k]
 //@                  && u32obj(recList(record)[n0 + k]) == seedEnd(cfg(a).AntreaFlowEndSecondsElements[k], fillSrcStats, fillDstStats, old(u32v(recList(record)[je]))))
 //@   loop 1 invariant vals: old(seedIdx(record, js, je, jb, jr)) ==> timeStart == old(u32v(recList(record)[js])) && timeEnd == old(u32v(recList(record)[je])) && byteCount == old(u64v(recList(record)[jb])) && reverseByteCount == old(u64v(recList(record)[jr]))
 //@   loop 2 invariant cnt:  0 <= $i && $i <= len(cfg(a).ThroughputElements) && len(recList(record)) == n0 + nE + 3 * $i && dense(record) && record.(*dataRecord) == old(record.(*dataRecord))
 //@   loop 2 invariant arr:  arr(recList(record)) == old(arr(recList(record))) || fresh(recList(record))
+//@   loop 2 invariant nn:   forall j in [0, len(recList(record))): wfElemA(recList(record)[j])
+//@   loop 2 invariant new:  forall j in [n0, len(recList(record))): fresh(recList(record)[j].(*baseInfoElement))
+//@   loop 2 invariant dist: old(distinctElems(record)) ==> distinctElems(record)
 //@   loop 2 invariant keep: forall j in [0, n0): recList(record)[j] == old(recList(record)[j])
 //@   loop 2 invariant endseed: old(seedIdx(record, js, je, jb, jr)) ==> (forall k in [0, nE): ie(recList(record)[n0 + k]).Name == cfg(a).AntreaFlowEndSecondsElements[k]
 //@                  && u32obj(recList(record)[n0 + k]) == seedEnd(cfg(a).AntreaFlowEndSecondsElements[k], fillSrcStats, fillDstStats, old(u32v(recList(record)[je]))))
@@ -367,6 +378,9 @@ package intermediate
 //@   loop 2 invariant thrseed: old(seedIdx(record, js, je, jb, jr)) ==> (forall q in [n0 + nE, len(recList(record))): u64v(recList(record)[q]) == thrValAt(q - n0 - nE, fillSrcStats, fillDstStats,
 //@                      seedThr(old(u64v(recList(record)[jb])), old(u32v(recList(record)[js])), old(u32v(recList(record)[je]))), seedThr(old(u64v(recList(record)[jr])), old(u32v(recList(record)[js])), old(u32v(recList(record)[je])))))
 //@   callpost AddInfoElement arr: arr(recList(record)) == old(arr(recList(record))) || fresh(recList(record))
+//@   callpost AddInfoElement nn:   forall j in [0, len(recList(record))): wfElemA(recList(record)[j])
+//@   callpost AddInfoElement new:  forall j in [n0, len(recList(record))): fresh(recList(record)[j].(*baseInfoElement))
+//@   callpost AddInfoElement dist: old(distinctElems(record)) ==> distinctElems(record)
 //@   callpost AddInfoElement keep: forall j in [0, n0): recList(record)[j] == old(recList(record)[j])
 //@   callpost AddInfoElement thrname: (forall q in [n0 + nE, len(recList(record))): ie(recList(record)[q]).Name == thrNameAt(a, q - n0 - nE))
 //@   callpost AddInfoElement thrseed: old(seedIdx(record, js, je, jb, jr)) ==> (forall q in [n0 + nE, len(recList(record))): u64v(recList(record)[q]) == thrValAt(q - n0 - nE, fillSrcStats, fillDstStats, seedThr(old(u64v(recList(record)[jb])), old(u32v(recList(record)[js])), old(u32v(recList(record)[je]))), seedThr(old(u64v(recList(record)[jr])), old(u32v(recList(record)[js])), old(u32v(recList(record)[je])))))
